@@ -86,7 +86,7 @@ def run(tier, seed):
         open(path, "wb").write(data)
         for pk in per:
             glines.append(desc_line(pk))
-            gmeta.append({"s": s, "pk": pk})
+            gmeta.append({"s": s, "pk": pk, "stave": stave})
         for mode in MODES:
             if mode[-1] == "its-stave" and not stave:
                 continue
@@ -110,18 +110,31 @@ def run(tier, seed):
     ires = core.run_lines(core.FPMODEL, "grammarits", ilines, shards=core.NCPU)
     idist = set()
     members = 0
+    stave_links = 0
+    stave_members = 0
     for m, line, out in zip(gmeta, ilines, ires):
         want = ",".join((r + p_).hex().upper() for r, p_ in m["pk"])
         npages = len(m["pk"])
         idist.add((npages > 6, m["pk"][0][0][24], out[:10]))
         if out.startswith("wf=1 its=1 "):
             members += 1
-        if not out.startswith("wf=1 its=1 ") or out[11:] != want:
-            chk.disagreements.append({"stream": "grammar-its", "description": line[:800], "verdict": out[:11],
+        head, _, body = out.partition(" stave=")
+        stave_flag, _, rendered = body.partition(" ")
+        if m.get("stave"):
+            stave_links += 1
+            if stave_flag == "1":
+                stave_members += 1
+            else:
+                chk.disagreements.append({"stream": "grammar-its", "description": line[:800], "verdict": out[:19],
+                                          "detail": "a generated stave-level conforming link is not accepted by the stave-level membership test "
+                                                    "(Spec/GrammarStaveCheck.v stave_witness)"})
+        if head != "wf=1 its=1" or rendered != want:
+            chk.disagreements.append({"stream": "grammar-its", "description": line[:800], "verdict": out[:19],
                                       "detail": "a generated conforming link is not accepted by the membership test of the word-level grammar "
                                                 "(Spec/GrammarItsCheck.v link_witness), or its rendering differs from the generated bytes"})
     chk.add_stream("grammar-its", len(ilines), idist, [{"description": ilines[0][:200] + "...", "verdict": ires[0][:11]}] if ilines else [],
-                   distribution={"links": len(ilines), "members_of_the_word_level_grammar": members})
+                   distribution={"links": len(ilines), "members_of_the_word_level_grammar": members,
+                                 "stave_level_links": stave_links, "members_of_the_stave_level_grammar": stave_members})
 
     # ---- every mode is silent
     def work(j):
